@@ -12,7 +12,8 @@ from .e1_srcmodel import dotted, walk_no_nested
 from .e2_eval import is_unknown
 from .sem import split_call, place
 from .c18_fold import Folder, FoldRaise
-from .c18_sem import (explore, app, head, same, vkey, unfn_m, strip, find, walk, contains, const_of, sym_of, norm_atom, depends_on_sym)
+from .c18_sem import (explore, app, head, same, vkey, unfn_m, strip, find, walk, contains, const_of, sym_of, norm_atom, depends_on_sym, is_empty,
+                      is_boolean)
 
 N2P = "pyyeti/nastran/n2p.py"
 OP2 = "pyyeti/nastran/op2.py"
@@ -492,7 +493,7 @@ def r2_mksetpv(ctx):
             if c is None or not (contains(c, A) or contains(c, B)):
                 continue
             red = "any" if app(c, "any") else ("all" if app(c, "all") else None)
-            tt = _truth_table(app(c, red)[0], A, B) if red else None
+            tt = _truth_table(app(c, red)[0], A, B, red) if red else None
             if tt is None:
                 opaque = node
             elif red == "any" and tt == (False, False, True, False):
@@ -547,8 +548,13 @@ def r2_mksetpv(ctx):
               None if ok else {"returned": _show(bad[0].ret), "regime": bad[0].describe()})
 
 
-def _truth_table(v, A, B):
-    """value of the mask expression v for (A, B) = (0,0), (0,1), (1,0), (1,1), or None when v is not built from A, B, ~, &, |, ^, A[~B]"""
+_BOOL_CMP = {"Gt": lambda x, y: x and not y, "Lt": lambda x, y: y and not x, "GtE": lambda x, y: x or not y, "LtE": lambda x, y: y or not x,
+             "Eq": lambda x, y: x == y, "NotEq": lambda x, y: x != y}
+
+
+def _truth_table(v, A, B, red="any"):
+    """value of the mask expression v for (A, B) = (0,0), (0,1), (1,0), (1,1), or None when v is not built from A, B, ~, &, |, ^, A[~B] and the
+    comparisons > >= < <= == != of two such (boolean) vectors"""
     def ev(x, a, b):
         if same(x, A):
             return a
@@ -558,11 +564,15 @@ def _truth_table(v, A, B):
         if u is None:
             return None
         nm, args = u
+        if nm == "astype" and len(args) == 2 and sym_of(args[1]) in ("bool", "np.bool_"):
+            return ev(args[0], a, b)
         vals = [ev(y, a, b) for y in args if not isinstance(y, str)]
         if any(t is None for t in vals):
             return None
-        if nm == "invert" and len(vals) == 1:
+        if nm in ("invert", "not") and len(vals) == 1:
             return not vals[0]
+        if nm.startswith("cmp:") and len(vals) == 2 and nm[4:] in _BOOL_CMP:
+            return _BOOL_CMP[nm[4:]](vals[0], vals[1])          # on booleans  a > b  is  a & ~b,  a <= b  is  ~a | b, ...
         if nm == "mask:BitAnd" and len(vals) == 2:
             return vals[0] and vals[1]
         if nm == "mask:BitOr" and len(vals) == 2:
@@ -572,7 +582,15 @@ def _truth_table(v, A, B):
         if nm == "idx" and len(vals) == 2:
             return vals[0] and vals[1]          # X[mask].any(): some element selected by the mask is true
         return None
-    out = tuple(ev(v, a, b) for a, b in ((False, False), (False, True), (True, False), (True, True)))
+    def top(a, b):
+        # all(X[mask]): every element selected by the mask is true -  not mask or X  per element (any(X[mask]) is  mask and X, as inside)
+        i = app(v, "idx")
+        if red == "all" and i and len(i) == 2:
+            x, m = ev(i[0], a, b), ev(i[1], a, b)
+            return None if x is None or m is None else ((not m) or x)
+        return ev(v, a, b)
+
+    out = tuple(top(a, b) for a, b in ((False, False), (False, True), (True, False), (True, True)))
     return None if any(t is None for t in out) else out
 
 
@@ -634,8 +652,12 @@ def _clamp_kind(x, ss, arrays):
     if c and ((same(c.get("x1"), ss) and is_last(c.get("x2"))) or (same(c.get("x2"), ss) and is_last(c.get("x1")))):
         return "clamped"
     c = _is_call(x, ("clip",), ["a", "a_min", "a_max"])
-    if c and same(c.get("a"), ss) and is_last(c.get("a_max")) and (const_of(c.get("a_min")) == 0 or sym_of(c.get("a_min")) == "None"):
-        return "clamped"
+    if c:
+        lo, hi = c.get("a_min", c.get("min")), c.get("a_max", c.get("max"))         # np.clip(a, a_min, a_max) / a.clip(min=, max=)
+        if same(c.get("a"), ss) and is_last(hi) and (lo is None or const_of(lo) == 0 or sym_of(lo) == "None"):
+            return "clamped"
+        if same(c.get("a"), ss) and (hi is None or sym_of(hi) == "None" or is_size(hi)):
+            return "raw"                # no upper bound below the size
     c = _is_call(x, ("where",), ["condition", "x", "y"])
     if c and c.get("condition") is not None:
         canon, pol, _ = norm_atom(c["condition"])
@@ -805,6 +827,18 @@ def _lookup_paths(ctx, rel, qual):
     return fn, paths, reach
 
 
+def _selector_kind(x, L):
+    """what the selector x keeps of the requested keys: 'match' (the exact-match mask or its nonzero index), 'mismatch' (its complement), None"""
+    if L.is_match(x):
+        return "match"
+    if L.is_mismatch(x):
+        return "mismatch"
+    a = app(x, "idx")
+    if a and const_of(a[1]) == 0 and app(a[0], "nonzero"):
+        return _selector_kind(app(a[0], "nonzero")[0], L)
+    return None
+
+
 def _anymis(p, L):
     """truth of `some requested key was not found` on the path (None: never tested)"""
     for c, d, _ in p.atoms():
@@ -876,7 +910,10 @@ def _r3_mkdofpv(ctx):
         fa, fb = bool(a) and same(a[0], L.P), bool(b) and same(b[0], D)
         ua, ub = same(r[0], L.P), same(r[1], D)
         if fa and fb:
-            return "filtered" if same(a[1], b[1]) and L.is_match(a[1]) else "misfiltered"
+            if not same(a[1], b[1]):
+                return "misfiltered"
+            k = _selector_kind(a[1], L)
+            return {"match": "filtered", "mismatch": "misfiltered"}.get(k, "unknown")
         if (fa and ub) or (ua and fb):
             return "misfiltered"
         return "unknown"
@@ -1030,15 +1067,16 @@ def _r3_mat_intersect(ctx):
     chain = _report_lookup(ctx, "mat_intersect", list(looks.values()))
     d1, d2 = fn.args.args[0].arg, fn.args.args[1].arg
     if chain:
-        def sel_index(x, L):
+        def sel_kind(x, L):
+            """x as a row selector: 'match' - the index vector nonzero(exact-match mask)[0]; 'mismatch' - that of the complement; else None"""
             a = app(x, "idx")
-            if a and const_of(a[1]) == 0:
-                n = app(a[0], "nonzero")
-                return bool(n) and L.is_eq(n[0])
-            return False
+            if a and const_of(a[1]) == 0 and app(a[0], "nonzero"):
+                m = app(a[0], "nonzero")[0]
+                return "match" if L.is_match(m) else ("mismatch" if L.is_mismatch(m) else None)
+            return None
 
         exact_ok, trim_ok, order_ok = True, True, True
-        det = None
+        det, odd = None, None
         for p in reach:
             L = looks[id(p)]
             if not p.returned:
@@ -1056,17 +1094,33 @@ def _r3_mat_intersect(ctx):
                 return bound
             # r[0] indexes D1, r[1] indexes D2
             need_sel, hay_pos = (r[0], r[1]) if from_d1 else (r[1], r[0])
-            if not sel_index(need_sel, L):
-                if sel_index(hay_pos, L):
+            uses_recheck = lambda x: bool(find(x, lambda y: L.is_eq(y) or L.is_ne(y)))
+            ks = sel_kind(need_sel, L)
+            if ks != "match":
+                a = app(hay_pos, "idx")
+                if sel_kind(hay_pos, L) == "match" and (same(need_sel, L.P) or (app(need_sel, "idx") and same(app(need_sel, "idx")[0], L.P))):
                     order_ok = False
+                elif ks == "mismatch" or not uses_recheck(need_sel):
+                    exact_ok = False            # the complement is kept, or the rows returned do not depend on the re-check at all
                 else:
-                    exact_ok = False
+                    odd = (p, need_sel)
+                    continue
                 det = det or {"regime": p.describe(), "returned": _show(r)}
                 continue
             a = app(hay_pos, "idx")
-            if not (a and same(a[0], L.P) and (sel_index(a[1], L) or L.is_eq(a[1]))):
+            kt = _selector_kind(a[1], L) if a and same(a[0], L.P) else None
+            if kt == "match":
+                continue
+            if kt == "mismatch" or same(hay_pos, L.P) or not uses_recheck(hay_pos):
                 trim_ok = False
                 det = det or {"regime": p.describe(), "returned": _show(r)}
+            else:
+                odd = (p, hay_pos)
+        if odd is not None and exact_ok and trim_ok and order_ok:
+            ctx.error("mat_intersect: how the outputs are derived from the exact-match re-check is not recognised "
+                      "(rule knows nonzero(match)[0] for the requested rows and positions[that index or the match mask])", odd[0].ret_node,
+                      {"regime": odd[0].describe(), "output": _show(odd[1])})
+            return bound
         ctx.check(exact_ok, "mat_intersect: only exact matches are kept (the rows of the requested keys where haystack[pv2] == needles)", fn, None if exact_ok else det)
         ctx.check(trim_ok, "mat_intersect: haystack positions are trimmed by the same match vector", fn, None if trim_ok else det)
         ctx.check(order_ok, "mat_intersect: the first output indexes D1 and the second D2 whichever input is searched (D1[pv1] == D2[pv2])", fn,
@@ -1081,7 +1135,7 @@ def _r3_mat_intersect(ctx):
             if a and all(bool(app(x, "idx")) and head(app(x, "idx")[0]) == "attr:shape" and const_of(app(x, "idx")[1]) == 1 for x in a) \
                     and {depends_on_sym(x, d1) for x in a} == {True, False} and {depends_on_sym(x, d2) for x in a} == {True, False}:
                 cols = d
-        empty = isinstance(p.ret, tuple) and len(p.ret) == 2 and all(x == () for x in p.ret)
+        empty = isinstance(p.ret, tuple) and len(p.ret) == 2 and all(is_empty(x) for x in p.ret)
         if cols is True or (cols is False and not empty):
             bad = p
         elif cols is None:
@@ -1151,6 +1205,69 @@ def _some_exceed(p, arr, bound):
     return None
 
 
+def _range_of(v):
+    """(start, stop) of a value that is range(stop) / range(start, stop) / np.arange(...) with integer constants (step 1), else None"""
+    v = strip(v)
+    sc = split_call(v)
+    if sc is None or sc[0] not in ("range", "np.arange") or sc[2] or not 1 <= len(sc[1]) <= 2:
+        a = app(v, "comp")          # [k for k in range(..)] / list(range(..)) hold the same items
+        if a and len(a) == 2 and same(a[0], F.sym("@v0")) and app(a[1], "gen") and len(app(a[1], "gen")) == 1:
+            return _range_of(app(a[1], "gen")[0])
+        if sc is not None and sc[0] in ("list", "tuple", "np.array", "np.asarray") and len(sc[1]) == 1 and not sc[2]:
+            return _range_of(sc[1][0])
+        return None
+    ks = [const_of(x) for x in sc[1]]
+    if any(k is None or k.denominator != 1 for k in ks):
+        return None
+    ks = [int(k) for k in ks]
+    return (0, ks[0]) if len(ks) == 1 else (ks[0], ks[1])
+
+
+def _cross_rows(v):
+    """(X, R) when v holds the rows [x, r] for x in X (outer, in order) for r in R (inner, in order) - the id expansion - in one of the
+    spellings:  [[x, r] for x in X for r in R]  (or the loop nest that appends the same rows);
+    np.column_stack((np.repeat(X, len(R)), np.tile(R, len(X))))  (also np.c_[..], np.vstack / np.array of the two, transposed);
+    itertools.product(X, R)"""
+    v = strip(v)
+    a = app(v, "comp")
+    if a and len(a) == 3:
+        g1, g2 = app(a[1], "gen"), app(a[2], "gen")
+        if g1 and g2 and len(g1) == 1 and len(g2) == 1 and same(a[0], F.fn("tuple", F.sym("@v0"), F.sym("@v1"))):
+            return g1[0], g2[0]
+        return None
+    sc = split_call(v)
+    if sc is not None and sc[0] in ("list", "tuple") and len(sc[1]) == 1 and not sc[2]:
+        return _cross_rows(sc[1][0])
+    if sc is not None and sc[0] in ("itertools.product", "product") and len(sc[1]) == 2 and not sc[2]:
+        return sc[1][0], sc[1][1]
+    cols = None
+    if sc is not None and sc[0] in ("np.column_stack",) and len(sc[1]) == 1 and not sc[2]:
+        cols = app(sc[1][0], "tuple")
+    if sc is not None and sc[0] in ("np.stack",) and len(sc[1]) == 1 and const_of(sc[2].get("axis")) in (1, -1) and len(sc[2]) == 1:
+        cols = app(sc[1][0], "tuple")
+    i = app(v, "idx")
+    if i and sym_of(i[0]) == "np.c_":
+        cols = app(i[1], "tuple")
+    t = app(v, "attr:T") or (sc[1] if sc is not None and sc[0] in ("np.transpose", ".transpose") and len(sc[1]) == 1 and not sc[2] else None)
+    if t:
+        st = split_call(t[0])
+        if st is not None and st[0] in ("np.vstack", "np.array", "np.stack", "np.asarray") and len(st[1]) == 1 and not st[2]:
+            cols = app(st[1][0], "tuple")
+        elif app(t[0], "tuple"):
+            cols = app(t[0], "tuple")           # np.array([rep, til]).T : the conversion of a list is the list
+    if not cols or len(cols) != 2:
+        return None
+    rep = _is_call(cols[0], ("repeat",), ["a", "repeats"])
+    til = _is_call(cols[1], ("tile",), ["A", "reps"])
+    if not rep or not til or rep.get("a") is None or til.get("A") is None or "axis" in rep:
+        return None
+    X, R = rep["a"], til["A"]
+    rng = _range_of(R)
+    n_ok = any(same(rep.get("repeats"), n) for n in _size_forms([R])) or (rng is not None and const_of(rep.get("repeats")) == rng[1] - rng[0])
+    m_ok = any(same(til.get("reps"), n) for n in _size_forms([X, strip(X)]))
+    return (X, R) if n_ok and m_ok else None
+
+
 def r4_expanddof(ctx):
     fn, paths = explore(ctx, N2P, "expanddof")
     dofp = fn.args.args[0].arg
@@ -1158,17 +1275,17 @@ def r4_expanddof(ctx):
     rets = [p for p in paths if p.returned]
     kinds = []
     for p in rets:
-        v = strip(p.ret) if not isinstance(p.ret, tuple) else None
+        v = None if p.ret is None or (isinstance(p.ret, tuple) and p.ret != ()) else (p.ret if p.ret == () else strip(p.ret))
         if v is None or is_unknown(v):
             k = "unknown"
+        elif is_empty(v):
+            k = "empty"
         elif find(v, lambda x: head(x) == "call:str"):
             k = "digits"
-        elif head(v) == "comp":
+        elif _cross_rows(v) is not None:
             k = "ids"
         elif sym_of(v) == dofp:
             k = "as-is"
-        elif const_of(v) is not None:
-            k = "empty"
         else:
             k = "unknown"
         kinds.append((p, k, v))
@@ -1208,19 +1325,15 @@ def r4_expanddof(ctx):
     good = bool(ids)
     det = None
     seen = set()
-    v0, v1 = F.sym("@v0"), F.sym("@v1")
     for p, k, v in ids:
-        a = app(v, "comp")
-        g1 = app(a[1], "gen") if a and len(a) == 3 else None
-        g2 = app(a[2], "gen") if a and len(a) == 3 else None
-        ok = bool(g1) and bool(g2) and len(g1) == 1 and len(g2) == 1 and same(a[0], F.fn("tuple", v0, v1)) and sym_of(strip(g1[0])) == dofp
+        X, R = _cross_rows(v)
+        ok = sym_of(strip(X)) == dofp
         go = p.decided(F.sym(gop))
         for g in (True, False):
             if go is not None and go != g:
                 continue
             seen.add(g)
-            want = [F.fn("call:range", F.const(1), F.const(7))] if g else [F.fn("call:range", F.const(7)), F.fn("call:range", F.const(0), F.const(7))]
-            if not (ok and any(same(g2[0], w) for w in want)):
+            if not (ok and _range_of(R) == ((1, 7) if g else (0, 7))):
                 good = False
                 det = det or {"regime": p.describe(), "grids_only": g, "returned": _show(v)}
     ctx.check(good and seen == {True, False}, "expanddof: 1-D input expands to components 1..6 (grids_only) or 0..6", fn, det)
